@@ -626,26 +626,38 @@ def part_a(ctx: Ctx) -> bool:
 # --------------------------------------------------------------------------
 # part T: the table-like core re-translated from the source on every run (harness/translate.py)
 # --------------------------------------------------------------------------
-TRANSLATOR_TIE = {"C01": ["hmm_likelihood", "add_or_mult", "state_dist_evo"],
-                  "C02": ["element", "compute_encoding", "tile_and_repeat"],
-                  "C03": ["fast_trace"],
-                  "C04": ["evolve_midext"],
-                  "C05": ["tensor", "state_idx", "generate_transition", "comp_trans_prob", "transition_prob"],
-                  "C06": ["confusion", "observation", "row_wise_kron", "comp_obs_prob"],
+TRANSLATOR_TIE = {"C01": ["hmm_likelihood", "add_or_mult", "state_dist_evo", "diagnosis_matrix"],
+                  "C02": ["element", "compute_encoding", "tile_and_repeat", "uni_compute_encoding", "posterior_state_dist", "marginalize",
+                          "risk", "bi_posterior_state_dist", "bi_marginalize", "bi_risk"],
+                  "C03": ["fast_trace", "bi_state_dist", "bi_obs_dist", "bi_patient_likelihoods", "bi_bn_likelihood", "bi_hmm_likelihood"],
+                  "C04": ["evolve_midext", "ml_midext_evo", "ml_contra_state_dist_evo", "ml_state_dist", "ml_obs_dist", "ml_hmm_likelihood"],
+                  "C05": ["tensor", "state_idx", "generate_transition", "comp_trans_prob", "transition_prob", "get_state", "set_state"],
+                  "C06": ["confusion", "observation", "row_wise_kron", "comp_obs_prob", "diagnosis_prob", "observation_matrix", "obs_list"],
                   "C07": ["comp_bayes_net_prob", "evolve", "state_dist_evo", "state_dist", "obs_dist"],
-                  "C08": ["compute_encoding", "tile_and_repeat", "generate_data_encoding", "early_late_mapping"],
+                  "C08": ["compute_encoding", "tile_and_repeat", "generate_data_encoding", "early_late_mapping", "diagnosis_matrix"],
                   "C10": ["popfirst", "unflatten_and_split", "edge_get_params", "edge_set_params", "set_params_for", "flatten",
-                          "get_params_from"],
+                          "get_params_from", "dist_get_params", "dist_set_params", "leaf_set_dist_params", "leaf_get_dist_params"],
                   "C11": ["edge_set_params", "set_params_for"],
-                  "C12": ["popfirst", "edge_set_params"],
-                  "C13": ["bn_likelihood", "hmm_likelihood"],
+                  "C12": ["popfirst", "edge_set_params", "dist_set_params"],
+                  "C13": ["bn_likelihood", "hmm_likelihood", "ml_hmm_likelihood"],
                   "C14": ["tensor", "state_idx", "generate_transition", "evolve", "state_dist_evo"],
-                  "C17": ["unflatten_and_split", "set_params_for"]}
+                  "C17": ["unflatten_and_split", "set_params_for"],
+                  "C18": ["dist_normalize", "dist_is_updateable", "dist_max_time", "dist_pmf", "dist_get_params", "dist_set_params",
+                          "leaf_set_dist_params", "leaf_get_dist_params"],
+                  "C19": ["check_unique_names", "init_nodes", "init_edges", "representation", "to_dict", "gen_state_list", "state_list",
+                          "edge_views", "get_name"]}
 # advisory pieces: functions that the stored behaviour-preserving refactorings rewrite (tools/translator_vs_patches.sh over
 # seeded/refactor-*).  Their obligation is generated, checked and recorded on every run, but when it breaks the
 # correspondence alone decides (no violation is raised for the broken obligation itself).
 ADVISORY_PIECES = {"observation", "generate_transition", "bn_likelihood", "hmm_likelihood", "fast_trace", "generate_data_encoding",
-                   "unflatten_and_split", "set_params_for", "flatten", "get_params_from", "edge_get_params", "edge_set_params"}
+                   "unflatten_and_split", "set_params_for", "flatten", "get_params_from", "edge_get_params", "edge_set_params",
+                   "dist_max_time", "dist_pmf", "dist_set_params", "dist_get_params", "leaf_get_dist_params",
+                   "observation_matrix", "diagnosis_matrix", "uni_compute_encoding", "posterior_state_dist", "marginalize", "risk",
+                   "bi_state_dist", "bi_obs_dist", "bi_patient_likelihoods", "bi_bn_likelihood", "bi_hmm_likelihood",
+                   "bi_posterior_state_dist", "bi_marginalize", "bi_risk",
+                   "ml_contra_state_dist_evo", "ml_state_dist", "ml_obs_dist", "ml_hmm_likelihood",
+                   "init_nodes", "init_edges", "representation", "to_dict", "gen_state_list", "state_list", "edge_views", "get_name",
+                   "get_state", "set_state"}
 
 
 def translator_tie(ctx: "Ctx") -> None:
